@@ -28,3 +28,16 @@ package predicate
 //@   requires p != nil
 //@   ensures[value-or-error] (result0 != nil && result1 == nil) || (result0 == nil && result1 != nil)
 //@   ensures[value] result0 == p.anchor
+
+//@ props C06
+//@ func (p *Predicate) UUID
+//@   trusted hash of id and anchor; definedness and injectivity are the subject of C06
+//@   pure
+//@   requires p != nil
+//@   ensures result == pu(p) && len(result) == 16
+
+//@ func (p *Predicate) PartialUUID
+//@   trusted hash of the id; definedness and injectivity are the subject of C06
+//@   pure
+//@   requires p != nil
+//@   ensures result == ppu(p) && len(result) == 16
